@@ -245,10 +245,17 @@ def plan(tier: str, seed: int, scale: float = 1.0) -> List[Any]:
     gn = int((16000 if tier == 'quick' else 300000) * scale)
     for i in range(n):
         items.append({'kind': 'regex', 'n': max(1, gn // n), 'seed': seed * 1000 + 300 + i})
+    if tier == 'thorough':
+        # coverage-guided stage: libFuzzer mutates Python source text, the oracle runs inside the target
+        for i in range(n):
+            items.append({'kind': 'atheris', 'seconds': int(240 * scale), 'seed': seed * 1000 + 400 + i})
     return items
 
 
 def work(item: Dict[str, Any]) -> Acc:
+    if item['kind'] == 'atheris':
+        from ..core import run_fuzz_item
+        return run_fuzz_item(ID, 'c15', item['seconds'], item['seed'])
     acc = Acc()
     from .. import findings
     seen_sigs: Dict[str, Dict[str, Any]] = {}
